@@ -13,7 +13,8 @@ from ..tools import run_async_side
 ID = "C03"
 LEVEL = "exploration"
 ANCHORS = ["_core.py", "builtins.py", "itertools.py", "heapq.py", "functools.py", "contextlib.py"]
-RULE = ("metamorphic: each call spec (all iterator tools, aggregations, reduce; ExitStack exit callables) is run once "
+RULE = ("metamorphic: each call spec (all iterator tools, groupby operation sequences incl. a key that fails once and "
+        "continued use afterwards, aggregations, reduce; ExitStack exit callables) is run once "
         "with every iterable a list and every callable a def, then under flavour vectors assigning "
         "{list, getitem_seq, sync_iter, async_gen, async_class} to each iterable and {def, async def, partial(async "
         "def), callable object returning a coroutine, object returning a custom awaitable} to each callable - ALL "
@@ -39,6 +40,13 @@ def cases(tier, seed, shard, nshards):
         name = names[i % len(names)]
         spec = gen.agg_spec(rng, name, 5) if name in gen.AGG_NAMES else gen.iter_spec(rng, name, 5)
         yield {"kind": "tool", "spec": spec, "vseed": rng.randrange(1 << 30), "maxvec": 60 if tier == "quick" else 500}
+    from . import C16
+    k16 = 0
+    for gb in C16.cases(tier, seed, shard, nshards):
+        k16 += 1
+        if k16 % 40 == 0 and gb["key"] is not None and len(gb["ops"]) <= 10:
+            yield {"kind": "groupby", "gb": dict(gb, key="half", susp=0), "fault_at": rng.choice([None, 1, 1, 2, 3]),
+                   "exc": rng.choice(["ValueError", "TypeError", "Injected"])}
     for i in range(max(1, n // 6)):
         yield {"kind": "exitstack", "entries": [[rng.choice(["push", "callback"]), rng.choice(["falsy", "truthy", "raise"])]
                                                  for _ in range(rng.randint(1, 3))],
@@ -319,7 +327,45 @@ def _named(prop, name):
     return prop
 
 
+def run_groupby(case, stats):
+    """groupby with every iterable / key flavour, incl. a key that fails once and continued use afterwards."""
+    from . import C16
+    from ..probes import FAULT_TYPES
+    from ..tools import Fault
+    gb = case["gb"]
+
+    def side(src_fl, fn_fl):
+        fault = None
+        if case["fault_at"] is not None:
+            fault = Fault("fn", 0, case["fault_at"], FAULT_TYPES[case["exc"]]("injected"), "call")
+        r = C16.gb_side(dict(gb, flav=src_fl), False, fault=fault, fnfl=fn_fl, cont=True)
+        calls = [e for e in r["log"] if e[0] == "call"]
+        return r["results"], calls, r["foreign"]
+
+    base = side("list", "def")
+    viols, sigs, evals = [], [], 0
+    for sv in SRC_FL:
+        for fv in FN_FL:
+            if (sv, fv) == ("list", "def"):
+                continue
+            evals += 1
+            stats["variant_runs"] += 1
+            stats["groupby_variant_runs"] += 1
+            var = side(sv, fv)
+            sigs.append(("groupby", str(gb), case["fault_at"], sv, fv))
+            if var[2]:
+                viols.append({"key": "groupby/foreign-suspension", "msg": var[2][0]})
+            elif var[0] != base[0] or var[1] != base[1]:
+                what = "results" if var[0] != base[0] else "calls"
+                viols.append({"key": f"groupby/{what}",
+                              "msg": f"groupby keys={gb['keys']} ops={gb['ops']} key fails at call {case['fault_at']}: "
+                                     f"flavours {sv}/{fv} give {var[0]}; baseline list/def gives {base[0]}"[:1000]})
+    return {"violations": viols, "evals": max(1, evals), "sigs": sigs}
+
+
 def run_case(case, stats: Counter):
+    if case["kind"] == "groupby":
+        return run_groupby(case, stats)
     if case["kind"] == "return-kinds":
         return run_kinds(stats)
     if case["kind"] == "exitstack":
@@ -328,7 +374,8 @@ def run_case(case, stats: Counter):
 
 
 def finish(stats, tier):
-    need = ["variant_runs", "return_kind_checks", "exitstack_variant_runs", "variants_from_complete_vector_sets"]
+    need = ["variant_runs", "return_kind_checks", "exitstack_variant_runs", "variants_from_complete_vector_sets",
+            "groupby_variant_runs"]
     need += [f"src_{f}" for f in SRC_FL] + [f"fn_{f}" for f in FN_FL]
     for k in need:
         if not stats.get(k):
